@@ -1,5 +1,5 @@
 import VaxisModel.Driver.Common
-import VaxisModel.Model.SimpleList
+import VaxisModel.Model.ListGen
 import VaxisModel.Model.Pager
 import VaxisModel.Model.Scrollbar
 import VaxisModel.Model.DynList
@@ -25,15 +25,7 @@ namespace VaxisModel.Driver.C19
 open VaxisModel.Driver VaxisModel.Model
 
 /-- The index expressions regenerated from the source. -/
-def genRhs : SimpleList.Rhs where
-  down := Gen.ListFacts.down
-  up := Gen.ListFacts.up
-  home := Gen.ListFacts.home
-  «end» := Gen.ListFacts.«end»
-  pageDown := Gen.ListFacts.pageDown
-  pageUp := Gen.ListFacts.pageUp
-  setItems := Gen.ListFacts.setItems
-  drawEmptyGuard := Gen.ListFacts.drawEmptyGuard
+def genRhs : SimpleList.Rhs := SimpleList.gen
 
 def flush : Bool := Gen.ListFacts.layoutFlushesLast
 
